@@ -71,6 +71,7 @@ func VerifC18_Structure() {
 var vPatterns = []string{
 	"a", "abc", "a{2}", "ab{1,2}c", "x{3}y", "a\\.b", "\"", "[a-z]+", "\\d{2,3}", "(a|b)c", "^x$", "a\\/b", "\\\\", "[0-9A-F]{4}", "a.c", "x*", "(?i)ab", "\\w+@\\w+",
 	"(", ")", "[a", "a{2,1}", "*", "\\", "(?P<n>", "a**", "[z-a]",
+	"^a\\s$", "^\\s+$", "^x\\x20$", "^ ab $", "\\t$", // matches that begin or end with a blank
 }
 
 // VerifC18_Concrete: concrete patterns with the real regexp engine (host
